@@ -74,7 +74,7 @@ func c11Oracle(c ev.Case) Res {
 	case "nul":
 		// In = s, N = ctx | pos<<8 | count<<28
 		s := c.In
-		ctx, pos, cnt := c.N&0xff, (c.N>>8)&0xfffff, c.N>>28
+		ctx, pos, cnt := c.N&0xff, (c.N>>8)&0xfffff, (c.N>>28)&0x3ff
 		if ctx > 4 || pos <= 0 || pos >= len(s) || cnt < 1 {
 			return Res{}
 		}
@@ -183,6 +183,34 @@ func TestC11(t *testing.T) {
 			}
 		}
 	})
+	hb := htmlBoundaryInputs()
+	p = c.rec.NewPart("boundary_inputs_case_and_nul", "boundary inputs (see C07) x {upper, lower, alternating}; and NUL runs of 8..100 bytes at every inside position of the name tokens of every 5th grammar vector", false, true, "")
+	c.ParRange(p, int64(len(hb)), func(w *Worker, i int64) {
+		ex := xssExempt(hb[i])
+		if len(hb[i]) > 2000 {
+			return
+		}
+		for m := 0; m < 3; m++ {
+			if s2 := maskCase(hb[i], ex, m, 0); s2 != hb[i] {
+				w.Judge(ev.Case{Kind: "case", In: hb[i], In2: s2})
+			}
+		}
+	})
+	c.ParRange(p, int64(len(vec)/5), func(w *Worker, k int64) {
+		s := vec[int(k)*5]
+		for ctx := 0; ctx < 5; ctx++ {
+			pos := namePositions(s, ctx)
+			for j, ps := range pos {
+				if j%3 != 0 {
+					continue
+				}
+				for _, cnt := range []int{8, 44, 45, 46, 47, 48, 49, 50, 64, 100} {
+					w.Judge(nulCase(s, ctx, ps, cnt))
+				}
+			}
+		}
+	})
+
 	p = c.rec.NewPart("rapid_nul", "rapid: fragment-grammar input / mutated vector x context x drawn inside position x 1..3 NULs", true, false, "")
 	c.Rapid(p, 8, pick(100000, 900000), func(rt *rapid.T, sh int) ev.Case {
 		var s string
